@@ -331,5 +331,14 @@ def obligations(tier):
     obs += [ctor_rejects("border_count_not_multiple_of_facets"), ctor_rejects("border_batch_larger_than_facet")]
     obs += [batch_shapes("DataGeneratorODE", 1), batch_shapes("CubicMeshPDEStatio", 1), batch_shapes("CubicMeshPDEStatio", 2),
             batch_shapes("CubicMeshPDENonStatio", 1), batch_shapes("CubicMeshPDENonStatio", 2), wf_preserved()]
+    # "every batch it ever returns": for ANY state satisfying the batching invariant the batch is a window of the store
+    # (hence made of points of the domain / of border rows on their facets, by WF) — the C09 step contract, restated for C08
+    from contracts import c09
+    for which, rars in c09.CONSUMERS[:5]:
+        for rar in rars:
+            for cl in ("batch_is_window_of_store", "batch_shape"):
+                o = c09.consumer_ob(which, rar, cl)
+                o.name = o.name.replace("C09/", "C08/any_state/")
+                obs.append(o)
     obs += [float_grid(tier), native_ob()]
     return obs
